@@ -283,6 +283,23 @@ def gen_history(rnd, sid, focus, n_ops=None):
     return s
 
 
+def gen_reconfigured(rnd, sid):
+    """restarts with other constructor arguments than before (size limit, file count, options): only the properties
+    that do not depend on a constant configuration are demanded of these histories (Trace_Rotation_reconf.cfg)"""
+    s = gen_history(rnd, sid, "C05", n_ops=rnd.randint(10, 30))
+    for op in s.ops:
+        if op["op"] != "ctor":
+            continue
+        if rnd.random() < 0.8:
+            op["L"] = rnd.choice([0, 12, 16, 20, 30, 64])
+            op["N"] = rnd.choice([0, 1, 2, 3, 4, -1])
+            op["opts"] = rnd.randrange(8)
+        else:
+            op["L"], op["N"], op["opts"] = s.L, s.N, s.opts
+    s.tags.add("reconfigured")
+    return s
+
+
 def gen_bigbuf(rnd, sid):
     """QFile's 16 KiB write buffer: records around and above it, buffer filling up over several sends"""
     L = rnd.choice([0, 0, 20000, 40000, 70000])
@@ -558,6 +575,9 @@ def translate(scn, raw):
         elif k == "Begin":
             op = scn.ops[e["i"]]
             ev = {"e": "Begin", "op": e["op"], "rec": 0, "len": 0}
+            if e["op"] == "ctor" and "L" in op:
+                ev["cfg"] = {"L": op["L"], "N": op["N"], "startup": bool(op["opts"] & 1), "daily": bool(op["opts"] & 2),
+                             "gz": bool(op["opts"] & 4)}
             if e["op"] == "send":
                 ev["rec"] = op["rec"]
                 ev["len"] = scn.rec_len(op["rec"])
